@@ -23,8 +23,7 @@ typedef struct TSG {
   gvec llimits;
   bool using_dynamic_construction;
   int points_id, values_id;                  /* ghost identity of the loaded points / values / surrogate */
-  size_t transform_size; int transform_id;   /* domain_transform_a/b */
-  gvec conformal_asin_power;
+  gvec domain_transform_a, domain_transform_b, conformal_asin_power;
 } TSG;
 
 #if PROP_C07
@@ -57,7 +56,8 @@ static bool gvec_eq(gvec a, gvec b){ return a.size == b.size && (a.size == 0 || 
 
 bool isTypeCurved(TypeDepth t){ return g_curved[((unsigned) t) & 7u]; }
 static int base_ok(const TSG *s){ __CPROVER_assert(s->base != K_none, "C14 base is dereferenced only when the grid is not empty (null pointer otherwise)"); return 1; }
-void TSG_clear(TSG *s){ s->base = K_none; s->llimits = gvec_empty(); s->using_dynamic_construction = false; s->transform_size = 0; s->conformal_asin_power = gvec_empty(); g_cleared = true; }
+void TSGW_clear(TSG *self);
+void TSG_clear(TSG *s){ TSGW_clear(s); g_cleared = true; }      /* the extracted TasmanianSparseGrid::clear() plus the ghost flag */
 bool TSG_empty(const TSG *s){ return s->base == K_none; }
 bool TSG_isGlobal(const TSG *s){ return s->base == K_GridGlobal; }
 bool TSG_isSequence(const TSG *s){ return s->base == K_GridSequence; }
@@ -67,7 +67,7 @@ bool TSG_isFourier(const TSG *s){ return s->base == K_GridFourier; }
 int  TSG_getNumDimensions(const TSG *s){ return s->base ? s->dims : 0; }
 int  TSG_getNumLoaded(const TSG *s){ return s->base ? s->loaded : 0; }
 int  TSG_getNumOutputs(const TSG *s){ return s->base ? s->outs : 0; }
-void TSG_setDomainTransform_from(TSG *s, const TSG *src){ s->transform_size = src->transform_size; s->transform_id = src->transform_id; }
+void TSGW_setDomainTransform_vec(TSG *self, gvec a, gvec b);
 /* the family copy constructors: a complete copy of the source family object restricted to the output range (assumed, see G4 in DESIGN) */
 int copy_grid(TSG *s, int kind, const TSG *src, int ob, int oe){
   __CPROVER_assert(src->base == kind, "C11 the family cast of the source matches its type");
@@ -127,13 +127,14 @@ static void tsg_symbolic(TSG *s){
   __CPROVER_assume(s->llimits.size == 0 || (s->base != K_none && s->llimits.size == (size_t) s->dims));
   s->using_dynamic_construction = nondet_bool();
   s->points_id = nondet_int(); s->values_id = nondet_int();
-  s->transform_size = nondet_size_t(); s->transform_id = nondet_int(); __CPROVER_assume(s->transform_size == 0 || (s->base != K_none && s->transform_size == (size_t) s->dims));
+  s->domain_transform_a.id = nondet_int(); s->domain_transform_a.size = nondet_size_t(); s->domain_transform_b.id = nondet_int(); s->domain_transform_b.size = s->domain_transform_a.size;
+  __CPROVER_assume(s->domain_transform_a.size == 0 || (s->base != K_none && s->domain_transform_a.size == (size_t) s->dims));
   s->conformal_asin_power.id = nondet_int(); s->conformal_asin_power.size = nondet_size_t(); __CPROVER_assume(s->conformal_asin_power.size == 0 || (s->base != K_none && s->conformal_asin_power.size == (size_t) s->dims));
   for (int i = 0; i < 8; i++) g_curved[i] = nondet_bool();
   g_family_calls = 0; g_ctor_calls = 0; g_loads = 0; g_cleared = false; g_limits_seen_valid = false; tsg_exc = 0;
   g_family_may_throw = nondet_bool();
 }
-static void tsg_default(TSG *s){ s->base = K_none; s->dims = 0; s->outs = 0; s->loaded = 0; s->needed = 0; s->rule = rule_none; s->llimits = gvec_empty(); s->using_dynamic_construction = false; s->points_id = 0; s->values_id = 0; s->transform_size = 0; s->transform_id = 0; s->conformal_asin_power = gvec_empty(); }
+static void tsg_default(TSG *s){ s->base = K_none; s->dims = 0; s->outs = 0; s->loaded = 0; s->needed = 0; s->rule = rule_none; s->llimits = gvec_empty(); s->using_dynamic_construction = false; s->points_id = 0; s->values_id = 0; s->domain_transform_a = gvec_empty(); s->domain_transform_b = gvec_empty(); s->conformal_asin_power = gvec_empty(); }
 static gvec gvec_symbolic(void){ gvec v; v.id = nondet_int(); v.size = nondet_size_t(); __CPROVER_assume(v.size <= 16 && v.id > 0); return v; }
 static gptr gptr_symbolic(void){ gptr p; p.id = nondet_int(); p.null = nondet_bool(); p.size = 0; p.sized = false; __CPROVER_assume(p.id > 0); return p; }
 static gobj gobj_symbolic(void){ gobj o; o.id = nondet_int(); return o; }
@@ -167,6 +168,8 @@ static void g3_post_make(const TSG *s, gvec arg){
   if (tsg_exc == TSG_NO_EXC) {
     __CPROVER_assert(gvec_eq(s->llimits, arg), "G3 make*: the level limits of the new grid are the ones passed in (none when empty)");
     __CPROVER_assert(s->base != K_none && g_ctor_calls == 1, "C14 a successful make* builds exactly one grid");
+    __CPROVER_assert(!s->using_dynamic_construction && s->domain_transform_a.size == 0 && s->domain_transform_b.size == 0 && s->conformal_asin_power.size == 0,
+                     "C14 a successful make* yields a fresh grid: not under construction, no domain or conformal transform left over");
   }
 }
 static void g3_post_ptr(const TSG *old, const TSG *s, gptr arg, int dims){
@@ -241,6 +244,17 @@ static void g3_post_ptr(const TSG *old, const TSG *s, gptr arg, int dims){
   __CPROVER_assert(old.base != K_none || tsg_exc == TSG_RUNTIME_ERROR, "C14 loading values into an empty grid raises runtime_error");
 //@ post loadNeededValues_ptr
   __CPROVER_assert(old.base != K_none || tsg_exc == TSG_RUNTIME_ERROR, "C14 loading values into an empty grid raises runtime_error");
+//@ post clear
+  __CPROVER_assert(tsg_exc == TSG_NO_EXC && s.base == K_none && s.llimits.size == 0 && !s.using_dynamic_construction && s.domain_transform_a.size == 0 && s.domain_transform_b.size == 0 && s.conformal_asin_power.size == 0,
+                   "C14 clear() leaves an empty, fully reset grid (no limits, no transforms, not under construction)");
+//@ post setDomainTransform_vec
+  if (old.base != K_none && a.size == (size_t) old.dims && b.size == (size_t) old.dims)
+    __CPROVER_assert(tsg_exc == TSG_NO_EXC && gvec_eq(s.domain_transform_a, a) && gvec_eq(s.domain_transform_b, b), "C14 setDomainTransform stores vectors of the right size");
+  else
+    __CPROVER_assert(tsg_exc == (old.base == K_none ? TSG_RUNTIME_ERROR : TSG_INVALID_ARGUMENT) && gvec_eq(s.domain_transform_a, old.domain_transform_a) && gvec_eq(s.domain_transform_b, old.domain_transform_b),
+                     "C14 setDomainTransform rejects an empty grid (runtime_error) and vectors whose size is not getNumDimensions() (invalid_argument) and leaves the transform unchanged");
+//@ post clearDomainTransform
+  __CPROVER_assert(tsg_exc == TSG_NO_EXC && s.domain_transform_a.size == 0 && s.domain_transform_b.size == 0, "C14 clearDomainTransform removes the transform");
 //@ post beginConstruction
   __CPROVER_assert(old.base != K_none || tsg_exc == TSG_RUNTIME_ERROR, "C14 beginConstruction on an empty grid raises runtime_error");
 
@@ -259,7 +273,7 @@ void h_copyGrid(void){
   if (old.base != K_none) {
     __CPROVER_assert(self->points_id == old.points_id && self->values_id == old.values_id && self->loaded == old.loaded && self->needed == old.needed && self->dims == old.dims && self->outs == old.outs && self->rule == old.rule,
                      "C11 the copy holds the points, values and surrogate of the source");
-    __CPROVER_assert(self->transform_size == old.transform_size && (old.transform_size == 0 || self->transform_id == old.transform_id), "C11 the domain transform is copied");
+    __CPROVER_assert(gvec_eq(self->domain_transform_a, old.domain_transform_a) && gvec_eq(self->domain_transform_b, old.domain_transform_b), "C11 the domain transform is copied");
     __CPROVER_assert(gvec_eq(self->conformal_asin_power, old.conformal_asin_power), "C11 the conformal transform is copied");
     __CPROVER_assert(gvec_eq(self->llimits, old.llimits), "C11 the level limits are copied");
     __CPROVER_assert(self->using_dynamic_construction == old.using_dynamic_construction, "C11 the construction flag is copied");
